@@ -104,6 +104,13 @@ def patch_source(src, entries, fname='?'):
                 raise ExtractionError("%s:%s: probe anchor %r must end in ';', '{' or '}'" % (fname, e['function'], e['anchor']))
             inserts.append((b + m.end(), ' V_PROBE(__CPROVER_assert(!(%s), "COVER probe:%s")); ' % (e['cover'], e.get('name', '?'))))
             continue
+        if 'assert' in e:
+            # in-body obligation (per-iteration fact that no loop invariant can state because it speaks about the state in the middle of
+            # an iteration): an assertion inserted right after the matched text, live in the proof run; `tag` is the obligation text
+            if body[m.end() - 1] not in ';{}':
+                raise ExtractionError("%s:%s: assert anchor %r must end in ';', '{' or '}'" % (fname, e['function'], e['anchor']))
+            inserts.append((b + m.end(), ' __CPROVER_assert(%s, "%s"); ' % (e['assert'], e['tag'])))
+            continue
         # find the first '(' at/after match start, then its closing ')'
         i = body.find('(', m.start())
         if i < 0:
